@@ -285,6 +285,7 @@ func runC16As(c *Ctx, P string) {
 			}
 		}
 		c.verdictIf(okRet, P, "swap", "fn=UpdatePolicyOptions no-return-under-write-lock", p.pos(upd.Pos()), "write lock released on every return", "UpdatePolicyOptions can return while still holding policyRWMu.Lock: every later request is refused forever")
+		runC16StoresOnSuccess(c, P, upd)
 
 		// --- snapshot
 		fl := newFlow(p)
@@ -309,6 +310,16 @@ func runC16As(c *Ctx, P string) {
 					for _, v := range stores {
 						for _, o := range fl.Origins(v) {
 							fresh := o.Kind == "make" || o.Kind == "alloc" || (o.Kind == "call" && strings.Contains(o.Desc, "Clone")) || (o.Kind == "outparam" && strings.Contains(o.Desc, "builtin:copy"))
+							// the same field of the server's own previous snapshot (itself deep-copied when it was stored)
+							if !fresh && o.Kind == "field" && o.Fld == fld {
+								if u, ok := unwrap(o.Val).(*ssa.UnOp); ok {
+									if fa, ok := u.X.(*ssa.FieldAddr); ok {
+										if call, ok := unwrap(fa.X).(*ssa.Call); ok && atomicPtrOp(call, "Load") && isMutexField(call.Call.Args[0], "policy") {
+											fresh = true
+										}
+									}
+								}
+							}
 							if !fresh {
 								good = false
 							}
